@@ -64,6 +64,7 @@ var c05KindNames = []string{"own", "peer_current", "peer_pending"}
 // c05Stats accumulates what one case validated.
 type c05Stats struct {
 	closes, inputs, secondLevelSweeps, published, negControls int
+	nurseryInputs, nurseryIncubated, nurseryConfs             int
 	htlcResolvers                                              int
 	byType                                                     map[string]int
 	pendingChecked, leaseOrTaproot                             bool
@@ -405,6 +406,10 @@ func c05Run(t *testing.T, c *c05Close, height uint32,
 	// incubate concurrently right after they are started.
 	var mu sync.Mutex
 
+	// nur is the real utxo nursery behind IncubateOutputs (pre-anchor
+	// second-level outputs; c05_nursery_test.go).
+	var nur *c05Nursery
+
 	// verify runs the interpreter on tx input 0 against the actual
 	// previous output.
 	verify := func(tx *wire.MsgTx) error {
@@ -437,8 +442,18 @@ func c05Run(t *testing.T, c *c05Close, height uint32,
 		stats.published++
 		stats.byType[how]++
 		addOutputs(tx)
+		// The output of a pre-anchor second-level transaction must be
+		// swept later (by the nursery).
+		secondLevelOuts[wire.OutPoint{Hash: tx.TxHash(), Index: 0}] =
+			tx.TxIn[0].PreviousOutPoint
 		mu.Unlock()
 		w.confirm(tx)
+		if nur != nil {
+			w.mu.Lock()
+			h := w.height
+			w.mu.Unlock()
+			nur.noteConfirmed(tx, h)
+		}
 
 		return nil
 	}
@@ -457,10 +472,17 @@ func c05Run(t *testing.T, c *c05Close, height uint32,
 
 		return nil
 	}
-	arb.cfg.IncubateOutputs = func(_ wire.OutPoint,
+	nur, err = newC05Nursery(
+		w, inc, db, st.FundingOutpoint, publish, addViolation,
+	)
+	if err != nil {
+		return fail("nursery: %v", err)
+	}
+	defer nur.stop()
+	arb.cfg.IncubateOutputs = func(cp wire.OutPoint,
 		o fn.Option[lnwallet.OutgoingHtlcResolution],
-		_ fn.Option[lnwallet.IncomingHtlcResolution], _ uint32,
-		_ fn.Option[int32], _ ...IncubateOption) error {
+		i fn.Option[lnwallet.IncomingHtlcResolution], h uint32,
+		d fn.Option[int32], opts ...IncubateOption) error {
 
 		o.WhenSome(func(r lnwallet.OutgoingHtlcResolution) {
 			if r.SignedTimeoutTx == nil {
@@ -471,14 +493,11 @@ func c05Run(t *testing.T, c *c05Close, height uint32,
 					"incubated timeout tx lock time %d, expiry %d",
 					r.SignedTimeoutTx.LockTime, r.Expiry))
 			}
-			err := publish(r.SignedTimeoutTx.Copy(),
-				"nursery_timeout_tx")
-			if err != nil {
-				addViolation(err)
-			}
 		})
 
-		return nil
+		// The real nursery publishes the timeout transaction at its
+		// expiry and sweeps the second-level output itself.
+		return nur.incubate(cp, o, i, h, d, opts...)
 	}
 
 	w.sweepHook = func(r *ccSweepReq, spent bool) (*wire.MsgTx, error) {
@@ -506,6 +525,14 @@ func c05Run(t *testing.T, c *c05Close, height uint32,
 		}
 		stats.inputs++
 		stats.byType[wt]++
+		if h, ok := nur.offeredAt(op); ok {
+			// Chosen, stored and read back by the nursery itself.
+			if err := nur.checkMaturity(inp, h); err != nil {
+				return nil, err
+			}
+			stats.nurseryInputs++
+			stats.byType["nursery:"+wt]++
+		}
 		// Negative controls: one block before CSV / CLTV maturity the
 		// spend must be invalid.
 		if inp.BlocksToMaturity() > 0 {
@@ -590,12 +617,21 @@ func c05Run(t *testing.T, c *c05Close, height uint32,
 		if key := w.pumpOne(inc); key != "" {
 			continue
 		}
+		if key := nur.net.pumpConf(inc); key != "" {
+			continue
+		}
 		next := int32(-1)
 		for _, tr := range triggers {
 			if tr > cur {
 				next = tr
 				break
 			}
+		}
+		// Heights at which the nursery store holds a class (CLTV
+		// expiry of a crib output, CSV maturity of a kindergarten
+		// output): the nursery must see those blocks.
+		if nc := nur.nextClass(cur); nc > 0 && (next < 0 || nc < next) {
+			next = nc
 		}
 		if next < 0 {
 			break
@@ -721,6 +757,13 @@ func c05Run(t *testing.T, c *c05Close, height uint32,
 		}
 	}
 
+	nur.mu.Lock()
+	stats.nurseryIncubated += nur.incubated
+	nur.mu.Unlock()
+	w.mu.Lock()
+	stats.nurseryConfs += nur.net.confs
+	w.mu.Unlock()
+
 	stats.closes++
 	nRes := nOut
 	for _, h := range c.htlcs {
@@ -838,12 +881,23 @@ func TestVerifC05Resolvers(t *testing.T) {
 		st.Count("second_level_outputs_swept", int64(stats.secondLevelSweeps))
 		st.Count("published_txs_validated", int64(stats.published))
 		st.Count("negative_controls", int64(stats.negControls))
+		st.Count("nursery_outputs_incubated", int64(stats.nurseryIncubated))
+		st.Count("nursery_confirmations_delivered", int64(stats.nurseryConfs))
+		st.Count("nursery_inputs_validated", int64(stats.nurseryInputs))
+		for wt, n := range stats.byType {
+			if strings.HasPrefix(wt, "nursery:") {
+				st.Count("nursery_input:"+wt[len("nursery:"):], int64(n))
+			}
+		}
 		labels := []string{"type=" + p.TypeName}
 		for wt := range stats.byType {
 			labels = append(labels, "wt="+wt)
 		}
 		for l := range s.Labels {
 			labels = append(labels, l)
+		}
+		if stats.nurseryInputs > 0 {
+			labels = append(labels, "nursery_inputs_validated")
 		}
 		if stats.pendingChecked {
 			labels = append(labels, "pending_remote_commit_checked")
